@@ -316,4 +316,32 @@ theorem primfaktoren_prod (z : Nat) (h : 1 ≤ z) : (primfaktoren z).foldl (· *
 example : primfaktoren 360 = [2, 2, 2, 3, 3, 5] := by decide
 example : kgV 4 6 = 12 ∧ ggT 12 18 = 6 := by decide
 
+/-! ### more text functions -/
+
+theorem loescheT_length (t t' : Text) (i : Nat) (h : loescheT t i = some t') : t'.length + 1 = t.length := by
+  unfold loescheT at h
+  split at h
+  · injection h with h; subst h; simp [List.length_take, List.length_drop]; omega
+  · simp at h
+
+theorem einfuegenT_length (t t' e : Text) (i : Nat) (h : einfuegenT t i e = some t') : t'.length = t.length + e.length := by
+  unfold einfuegenT at h
+  split at h
+  · injection h with h; subst h; simp [List.length_take, List.length_drop]; omega
+  · simp at h
+
+theorem einfuegenT_first (t t' e : Text) (h : einfuegenT t 1 e = some t') : t' = e ++ t := by
+  unfold einfuegenT at h
+  split at h
+  · injection h with h; subst h; simp
+  · simp at h
+
+theorem loescheBereichT_all (t : Text) (h : t ≠ []) : loescheBereichT t 1 t.length = some [] := by
+  have : 0 < t.length := List.length_pos_iff.mpr h
+  simp [loescheBereichT]; omega
+
+example : finde [97, 97, 97] [97, 97] = [1] := by decide
+example : finde [97, 98, 97, 98] [97, 98] = [1, 3] := by decide
+example : spalteText [120, 97, 97, 98] [97, 98] = [[120, 97], []] := by decide
+
 end DDP.Duden
